@@ -4,6 +4,7 @@ package props
 
 import (
 	"bufio"
+	"bytes"
 	"encoding/base64"
 	"encoding/binary"
 	"encoding/json"
@@ -131,6 +132,13 @@ func runDecode(t fataler, data []byte, parallel int) (lines []string, res logcap
 	in, out := filepath.Join(dir, "in.rdb"), filepath.Join(dir, "out.json")
 	if err := os.WriteFile(in, data, 0644); err != nil {
 		t.Fatalf("harness: %v", err)
+	}
+	if len(data) < 1<<20 {
+		// the output path already holds the (longer) result of an earlier decode: it must be replaced, not overwritten in place
+		old := bytes.Repeat([]byte("{\"db\":0,\"type\":\"string\",\"expireat\":0,\"key\":\"stale\",\"key64\":\"c3RhbGU=\",\"value64\":\"b2xk\"}\n"), 8*len(data)/80+64)
+		if err := os.WriteFile(out, old, 0644); err != nil {
+			t.Fatalf("harness: %v", err)
+		}
 	}
 	conf.Options.Parallel = parallel
 	defer func() { conf.Options.Parallel = 1 }()
@@ -336,6 +344,19 @@ func TestC17Regress(t *testing.T) {
 	bf := handFile([]gen.Record{{DB: 0, Key: []byte("bighash"), Type: gen.THash, ValBytes: hval, Logical: &hv, Label: "hash/chunked"}})
 	c17Check(t, bf, 2)
 	c17Check(t, bf, 1)
+	// a file larger than the 32 MiB read buffer the tool puts in front of it: a value straddles the buffer boundary
+	{
+		hv := gen.Value{Kind: "hash"}
+		hval := gen.AppendLen(nil, 34, 0)
+		for i := 0; i < 34; i++ {
+			fld, v := []byte(fmt.Sprintf("g%02d", i)), patBytes(uint32(100+i), 1<<20)
+			hv.Hash = append(hv.Hash, gen.HE{Field: fld, Value: v})
+			hval = gen.AppendRawString(hval, fld)
+			hval = append(hval, 0x80, 0, 0x10, 0, 0)
+			hval = append(hval, v...)
+		}
+		c17Check(t, handFile([]gen.Record{{DB: 0, Key: []byte("hash34"), Type: gen.THash, ValBytes: hval, Logical: &hv, Label: "hash/chunked"}}), 2)
+	}
 	// fixed: the lines of the later chunks carried expireat 0 instead of the key's expiry
 	bf = handFile([]gen.Record{{DB: 0, Key: []byte("bighash"), Type: gen.THash, ValBytes: hval, Logical: &hv, Label: "hash/chunked", ExpireAt: 4102444800000}})
 	c17Check(t, bf, 2)
